@@ -137,7 +137,7 @@ impl Oracle for C02 {
                     violation(
                         "C02",
                         "historical_r2_equals_r1",
-                        &format!("read-inconsistency:{}", sig_of_detail(&e.0)),
+                        &read_sig(&e.0),
                         w.step,
                         format!("replica {r} at historical heads: {}", e.0),
                     )
